@@ -61,8 +61,7 @@ class _TRSTractList:
             into.extend(iterable)
             return into
         for elem in iterable:
-            if isinstance(elem, cls._ok_individuals):
-                into.append(cls._verify_individual(elem))
+            into.append(cls._verify_individual(elem))
         return into
 
     @classmethod
